@@ -26,12 +26,33 @@ ANn = TStruct("__anon_nest", (TField("p", INTS["uint8"]), TField("r", INp)))
 EU16 = TEnum("EU16", INTS["uint16"], (("A", 1), ("B", 0x0102)))
 NU = TStruct("nu_t", (TField("q", INTS["uint16"]), TField("r", TArr(INTS["uint8"], 2))), union=True)  # union nested in a union
 SNU = TStruct("snu_t", (TField("k", INTS["uint8"]), TField("v", NU)))  # union nested via a struct
+INq = TStruct("inq_t", (TField("c", INTS["uint8"]), TField("d", INTS["uint8"])))
+NUS = TStruct("nus_t", (TField("b", INTS["uint16"]), TField("s", INq)), union=True)  # union nested in a union, itself holding a struct
+ANc = TStruct("__anon_c", (TField("z", INTS["uint8"]),))  # a second, smaller anonymous struct
+ANa = TStruct("__anon_outer2", (TField("op", INTS["uint8"]), TField(None, TStruct("__anon_inner2", (TField("ib", INTS["uint8"]), TField("ic", INTS["uint16"]))))))  # anonymous in anonymous
 MEMBERS = [
     ("u8", INTS["uint8"]), ("u16", INTS["uint16"]), ("u32", INTS["uint32"]), ("u64", INTS["uint64"]), ("i24", INTS["int24"]),
     ("a3", TArr(INTS["uint8"], 3)), ("a4", TArr(INTS["uint8"], 4)), ("w2", TArr(INTS["uint16"], 2)), ("c4", TArr(CHAR, 4)), ("e16", EU16),
     ("sa", INa), ("sb", INb), ("sc", INc), ("sp", INp), ("ANs", ANs), ("ANb", ANb), ("ANn", ANn), ("ANh", ANh), ("a8", TArr(INTS["uint8"], 8)), ("ptr", TPtr(INTS["uint8"])),
-    ("nu", NU), ("snu", SNU), ("f32", FLOATS["float"]),
+    ("nu", NU), ("snu", SNU), ("f32", FLOATS["float"]), ("nus", NUS), ("ANc", ANc), ("ANa", ANa),
 ]
+
+
+def folded_names(t):
+    """Attribute names an anonymous member contributes to its parent (anonymous members of anonymous members fold further)."""
+    out = []
+    for f in t.fields:
+        if f.name is None:
+            out += folded_names(f.type)
+        else:
+            out.append(f.name)
+    return out
+
+
+def read_member(u, n, mt):
+    if is_anon(mt):
+        return {k: impl.norm(getattr(u, k)) for k in folded_names(mt)}
+    return impl.norm(getattr(u, n))
 
 
 def is_anon(t):
@@ -72,7 +93,7 @@ def encode(t, v, cfg):
         offs, size, al = layout(t, cfg)
         out = bytearray(size)  # struct padding written by the library is zero
         for f, o in zip(t.fields, offs):
-            b = encode(f.type, v[f.name], cfg)
+            b = encode(f.type, v if f.name is None else v[f.name], cfg)
             out[o : o + len(b)] = b
         return bytes(out)
     return codec.encode(t, v, cfg)
@@ -95,7 +116,13 @@ def sample(t, k, cfg):
             return bytes([0x41 + k + i for i in range(t.count)])
         return [sample(t.elem, k + i, cfg) for i in range(t.count)]
     if isinstance(t, TStruct):
-        return {f.name: sample(f.type, k + i, cfg) for i, f in enumerate(t.fields)}
+        out = {}
+        for i, f in enumerate(t.fields):
+            if f.name is None:
+                out.update(sample(f.type, k + i, cfg))
+            else:
+                out[f.name] = sample(f.type, k + i, cfg)
+        return out
     raise TypeError(t)
 
 
@@ -114,14 +141,26 @@ def ops_for(members, cfg):
         if isinstance(t, TStruct) and t.union:
             for f in t.fields:
                 ops.append(((n, f.name), f.type, sample(f.type, 2, cfg)))
+                if isinstance(f.type, TStruct):
+                    for g in f.type.fields:
+                        ops.append(((n, f.name, g.name), g.type, sample(g.type, 3, cfg)))
             continue
         if not anon and not _has_union(t):
             for k in (0, 1):
                 ops.append(((n,), t, sample(t, k, cfg)))
             if isinstance(t, TArr) and not isinstance(t.elem, TChar):
                 ops.append(((n,), t, ("rmw", 0, sample(t.elem, 2, cfg))))
+        if isinstance(t, TStruct) and not anon and not _has_union(t):
+            leaves = [f for f in t.fields if not isinstance(f.type, (TStruct, TArr))]
+            if len(leaves) >= 2:
+                # two assignments through ONE held reference to the nested structure: s = u.m; s.a = x; s.b = y
+                ops.append(((n,), t, ("held", [(leaves[0].name, sample(leaves[0].type, 4, cfg)), (leaves[1].name, sample(leaves[1].type, 5, cfg))])))
         if isinstance(t, TStruct):
             for f in t.fields:
+                if f.name is None:
+                    for g in f.type.fields:
+                        ops.append(((g.name,), g.type, sample(g.type, 3, cfg)))
+                    continue
                 if isinstance(f.type, TStruct):
                     for g in f.type.fields:
                         ops.append((((n, f.name, g.name) if not anon else (f.name, g.name)), g.type, sample(g.type, 3, cfg)))
@@ -168,7 +207,7 @@ def apply_model(members, buf, path, v, cfg):
         if not anon and n == path[0]:
             sub = path[1:]
             break
-        if anon and path[0] in [f.name for f in mt.fields]:
+        if anon and path[0] in folded_names(mt):
             sub = path
             break
     else:
@@ -192,7 +231,7 @@ def written_member(members, cfg):
     anon = None
     for n, t in order:
         if is_anon(t):
-            anon = (n, t)
+            anon = anon or (n, t)
             continue
         if anon is not None and (sizeof(anon[1], cfg) or 0) > (sizeof(t, cfg) or 0):
             return anon
@@ -217,6 +256,8 @@ def lossy_written_member(members, cfg, size) -> bool:
 def opname(op):
     if isinstance(op[2], tuple) and op[2] and op[2][0] == "rmw":
         return f"rmw:{op[0][0]}[{op[2][1]}]={op[2][2]!r}"
+    if isinstance(op[2], tuple) and op[2] and op[2][0] == "held":
+        return f"s=u.{op[0][0]};" + ";".join(f"s.{fn}={fv!r}" for fn, fv in op[2][1])
     return ".".join(op[0]) + "=" + repr(op[2])[:40]
 
 
@@ -261,7 +302,7 @@ def explore(members, endian, align, depth, res: JobResult, embed=None):
             else:
                 for n, mt in members:
                     exp, _ = decode(mt, pat, 0, cfg)
-                    got = {f.name: impl.norm(getattr(up, f.name)) for f in mt.fields} if is_anon(mt) else impl.norm(getattr(up, n))
+                    got = read_member(up, n, mt)
                     if not same(got, exp):
                         issue("parse:value-at-offset", f"parsing at stream offset {p}: member {n} = {got}, expected {exp}")
                         break
@@ -283,7 +324,7 @@ def explore(members, endian, align, depth, res: JobResult, embed=None):
         for n, mt in members:
             exp, _ = decode(mt, buf, 0, cfg)
             try:
-                got = {f.name: impl.norm(getattr(u, f.name)) for f in mt.fields} if is_anon(mt) else impl.norm(getattr(u, n))
+                got = read_member(u, n, mt)
             except Exception as e:  # noqa: BLE001
                 issue("member:read-raises", f"{tag}: member {n}: {impl.exc_sig(e)}", hist)
                 ok = False
@@ -336,6 +377,17 @@ def explore(members, endian, align, depth, res: JobResult, embed=None):
                         return None
                     apply_model(members, buf, path, cur, cfg)
                     res.transitions += 1
+                    continue
+                if isinstance(v, tuple) and v and v[0] == "held":
+                    try:
+                        held = getattr(u, path[0])
+                        for fn, fv in v[1]:
+                            setattr(held, fn, fv)
+                            apply_model(members, buf, (path[0], fn), fv, cfg)
+                            res.transitions += 1
+                    except Exception as e:  # noqa: BLE001
+                        issue("assign:raises", f"{iname}: held reference {impl.exc_sig(e)} {e!r}", hist)
+                        return None
                     continue
                 apply_model(members, buf, path, v, cfg)
                 obj = u
@@ -521,14 +573,14 @@ def combos(tier):
     for k in ks:
         base = pool if k < 4 else [m for m in pool if m[0] in ("u8", "u32", "a3", "c4", "sa", "sb", "sc", "ANs", "ANb", "a8")]
         if k == 3 and tier == "quick":
-            base = [m for m in pool if m[0] in ("u8", "u16", "u32", "i24", "a3", "a4", "c4", "e16", "sa", "sb", "sc", "ANs", "ANb", "ANn", "ANh", "a8", "nu")]
+            base = [m for m in pool if m[0] in ("u8", "u16", "u32", "i24", "a3", "a4", "c4", "e16", "sa", "sb", "sc", "ANs", "ANb", "ANn", "ANh", "a8", "nu", "ANc")]
         for ms in itertools.combinations(base, k):
-            if sum(1 for _, t in ms if is_anon(t)) > 1:
+            if sum(1 for _, t in ms if is_anon(t)) > 2:
                 continue
             names = set()
             clash = False
             for n, t in ms:
-                fns = [f.name for f in t.fields] if is_anon(t) else [n]
+                fns = folded_names(t) if is_anon(t) else [n]
                 for fn in fns:
                     if fn in names:
                         clash = True
@@ -580,10 +632,10 @@ def replay(case):
 def meta(tier):
     return {
         "rule": "explicit-state BFS on real union objects: state = the model's byte buffer (a union value is its bytes); initial states {parsed from 2 "
-        "patterns, default}; transitions = every assignment u.m = v (2 values per member), u.s.f = v through nested structs (two levels) and u.f = v "
-        "through anonymous folding; invariant after every transition: every member equals decode(member, buffer), dumps equals the buffer at "
+        "patterns, default}; transitions = every assignment u.m = v (2 values per member), u.s.f = v through nested structs (two levels, also inside a nested union), two "
+        "assignments through one held reference (s = u.m; s.a = x; s.b = y), u.f = v through anonymous folding (one or two anonymous structs, anonymous inside anonymous); invariant after every transition: every member equals decode(member, buffer), dumps equals the buffer at "
         "every bit that is data in some member, and a fresh object parsed from the buffer equals the reached one; unions of 2-3 members (thorough "
-        "4) out of 19 member types x endian x packed/aligned, both declaration orders for pairs; plus unions embedded in structs/arrays and "
+        "4) out of 26 member types x endian x packed/aligned, both declaration orders for pairs; plus unions embedded in structs/arrays and "
         "API-built unions with members at non-zero offsets; non-trivial = states reached by at least one assignment",
         "bounds": {"members_per_union": [2, 3] if tier == "quick" else [2, 3, 4], "depth": 2 if tier == "quick" else 3},
         "assumptions": ["element-wise mutation of an array member is not an assignment to a member", "bits that are padding in every member are ignored"],
